@@ -1249,6 +1249,76 @@ def _closures(fn):
     return {k: v for k, v in out.items() if v is not None}
 
 
+def _scalarise_tuples(fn):
+    """N14: a local that is only ever bound to tuple displays of one arity and only ever read as
+    `t[<literal index>]` is that many locals: `t = (a, b)` -> `t__0 = a; t__1 = b`, `t[1]` -> `t__1`."""
+    binds, other = {}, set()
+    parent_sub = set()
+    for n in _walk_no_nested(fn):
+        if isinstance(n, ast.Subscript) and isinstance(n.value, ast.Name) and isinstance(n.ctx, ast.Load) and isinstance(
+                n.slice, ast.Constant) and isinstance(n.slice.value, int) and not isinstance(n.slice.value, bool):
+            parent_sub.add(id(n.value))
+    for n in _walk_no_nested(fn):
+        if isinstance(n, ast.Assign) and len(n.targets) == 1 and isinstance(n.targets[0], ast.Name) and isinstance(
+                n.value, ast.Tuple) and not any(isinstance(x, ast.Starred) for x in n.value.elts):
+            binds.setdefault(n.targets[0].id, []).append(n)
+        elif isinstance(n, ast.Name):
+            if isinstance(n.ctx, ast.Load):
+                if id(n) not in parent_sub:
+                    other.add(n.id)
+            elif not (isinstance(n.ctx, ast.Store)):
+                other.add(n.id)
+    # stores other than the recorded tuple assignments
+    stores = {}
+    for n in _walk_no_nested(fn):
+        if isinstance(n, ast.Name) and isinstance(n.ctx, ast.Store):
+            stores[n.id] = stores.get(n.id, 0) + 1
+    params = {a.arg for a in fn.args.args + fn.args.kwonlyargs}
+    todo = {}
+    for nm, asg in binds.items():
+        ar = {len(a.value.elts) for a in asg}
+        if nm in other or nm in params or len(ar) != 1 or stores.get(nm) != len(asg):
+            continue
+        k = next(iter(ar))
+        idx_ok = True
+        for n in _walk_no_nested(fn):
+            if isinstance(n, ast.Subscript) and isinstance(n.value, ast.Name) and n.value.id == nm:
+                if not (isinstance(n.slice, ast.Constant) and isinstance(n.slice.value, int) and -k <= n.slice.value < k):
+                    idx_ok = False
+        if idx_ok and k:
+            todo[nm] = k
+    if not todo:
+        return False
+
+    class T(ast.NodeTransformer):
+        def visit_FunctionDef(self, node):
+            if node is fn:
+                self.generic_visit(node)
+            return node
+
+        def visit_Lambda(self, node):
+            return node
+
+        def visit_Assign(self, node):
+            self.generic_visit(node)
+            if len(node.targets) == 1 and isinstance(node.targets[0], ast.Name) and node.targets[0].id in todo \
+                    and isinstance(node.value, ast.Tuple):
+                nm = node.targets[0].id
+                return [ast.copy_location(ast.Assign(targets=[ast.Name(id='%s__%d' % (nm, i), ctx=ast.Store())], value=v,
+                                                     type_comment=None), node) for i, v in enumerate(node.value.elts)]
+            return node
+
+        def visit_Subscript(self, node):
+            self.generic_visit(node)
+            if isinstance(node.value, ast.Name) and node.value.id in todo and isinstance(node.ctx, ast.Load):
+                k = todo[node.value.id]
+                return ast.copy_location(ast.Name(id='%s__%d' % (node.value.id, node.slice.value % k), ctx=ast.Load()), node)
+            return node
+    T().visit(fn)
+    ast.fix_missing_locations(fn)
+    return True
+
+
 def _fuse_comprehensions(fn):
     """N13: `xs = [T(a) for a in D]` used once, as the iterable of another comprehension
     `[F(x) for x in xs]`: the two are one comprehension `[F(T(a)) for a in D]` (the elements of
@@ -1383,6 +1453,7 @@ def normalize_module(tree, no_inline, all_classes=None, recorded=None):
                     break
             if _fuse_comprehensions(fn):
                 _idioms.rewrite_function(fn, c.name)
+            _scalarise_tuples(fn)
             _SplitTupleAssign().visit(fn)
             _forward_process_temps(fn)
             _forward_flags(fn)
